@@ -260,3 +260,98 @@ theorem envFileValues_render (environment : GoMap) (lines : List (Str × List Se
     | panic p => rfl
 
 end CV.Template.Sites
+
+namespace CV.Template.Sites
+open CV.Template
+
+/-! ## several env files in one include entry -/
+
+theorem layered_nil_middle (environment acc : GoMap) : layered [environment, [], acc] = layered [environment, acc] := by
+  funext k
+  simp only [layered, mlookup]
+
+/-- with no earlier file the general form is the single-file form -/
+theorem envFileValues2_first_file (environment : GoMap) (lines : List (Str × Str)) (acc : GoMap) :
+    envFileValues2 environment [] lines acc = envFileValues environment lines acc := by
+  induction lines generalizing acc with
+  | nil => rfl
+  | cons l r ih =>
+    obtain ⟨k, tpl⟩ := l
+    simp only [envFileValues2, envFileValues, layered_nil_middle]
+    cases subst (layered [environment, acc]) tpl with
+    | ok v => exact ih _
+    | err e => rfl
+    | panic p => rfl
+
+/-- hence one env file in the entry is the case treated above -/
+theorem envFilesValues_single (environment : GoMap) (lines : List (Str × Str)) :
+    envFilesValues environment [lines] [] =
+      match envFileValues environment lines [] with
+      | .ok m => .ok (m ++ [])
+      | .fail o => .fail o := by
+  simp only [envFilesValues, envFileValues2_first_file]
+  all_goals (cases envFileValues environment lines [] <;> rfl)
+
+/-- one line of a later env file: a well-formed value is the grammar's meaning under "project environment, then the
+    earlier env files, then the lines so far" -/
+theorem envFile2_line_render (environment envMap : GoMap) (k : Str) (t : List Seg) (r : List (Str × Str)) (acc : GoMap)
+    (h : WF t = true) :
+    envFileValues2 environment envMap ((k, renderL t) :: r) acc =
+      match evalOut (layered [environment, envMap, acc]) t with
+      | .ok v => envFileValues2 environment envMap r ((k, v) :: acc)
+      | o => .fail o := by
+  simp only [envFileValues2, subst_render _ t h]
+  all_goals (cases evalOut (layered [environment, envMap, acc]) t <;> rfl)
+
+/-- **a variable an earlier env file sets to the empty string is set in a later env file** (unless the project
+    environment sets it): `X="${n-d}"` gives the empty value, `X="${n+r}"` gives `r`, `${n?e}` does not fail -/
+theorem envFile2_earlier_file_set_empty_is_set (environment envMap acc : GoMap) (x n : Str) (arg : List Seg) (d : Str)
+    (rest : List (Str × Str))
+    (hn : validName n = true) (harg : wfL true arg = true)
+    (hl : mlookup environment n = none) (hm : mlookup envMap n = some [])
+    (hd : evalOut (layered [environment, envMap, acc]) arg = .ok d) :
+    envFileValues2 environment envMap ((x, (Seg.op n .dash arg).render) :: rest) acc =
+      envFileValues2 environment envMap rest ((x, []) :: acc) ∧
+    envFileValues2 environment envMap ((x, (Seg.op n .plus arg).render) :: rest) acc =
+      envFileValues2 environment envMap rest ((x, d) :: acc) ∧
+    envFileValues2 environment envMap ((x, (Seg.op n .q arg).render) :: rest) acc =
+      envFileValues2 environment envMap rest ((x, []) :: acc) := by
+  have hv : layered [environment, envMap, acc] n = some [] := by simp [layered, hl, hm]
+  obtain ⟨_, _, _, h4, _, _, h7, _, _, _, _, h12⟩ :=
+    subst_op_table (layered [environment, envMap, acc]) n arg d hn harg hd
+  simp only [envFileValues2, h4 [] hv, h7 [] hv, h12 [] hv, and_self]
+
+/-- the env files cannot make the load panic -/
+theorem envFiles_never_panic (environment : GoMap) (files : List (List (Str × Str))) (envMap : GoMap) (p : PanicSite) :
+    envFilesValues environment files envMap ≠ .fail (.panic p) := by
+  have one : ∀ (lines : List (Str × Str)) (em acc : GoMap), envFileValues2 environment em lines acc ≠ .fail (.panic p) := by
+    intro lines em
+    induction lines with
+    | nil => intro acc; simp [envFileValues2]
+    | cons l r ih =>
+      intro acc
+      obtain ⟨k, tpl⟩ := l
+      simp only [envFileValues2]
+      have hp := subst_never_panics (layered [environment, em, acc]) tpl
+      cases hs : subst (layered [environment, em, acc]) tpl with
+      | ok v => exact ih _
+      | err e => simp
+      | panic q => exact absurd hs (hp q)
+  induction files generalizing envMap with
+  | nil => simp [envFilesValues]
+  | cons f fs ih =>
+    simp only [envFilesValues]
+    cases hf : envFileValues2 environment envMap f [] with
+    | ok m => exact ih _
+    | fail o =>
+      intro h
+      cases h
+      exact one f envMap [] hf
+
+/-! non-vacuity: first file `A=""`, second file `X="${A-d}"`, label `[$X]` — and with the project environment setting `A` -/
+example : siteSubstRawFiles [] [[(['A'], [])], [(['X'], (Seg.op ['A'] .dash [.lit ['d']]).render)]] ['[', '$', 'X', ']'] = .ok ['[', ']'] := by
+  decide
+example : siteSubstRawFiles [(['A'], ['v'])] [[(['A'], [])], [(['X'], (Seg.op ['A'] .dash [.lit ['d']]).render)]] ['[', '$', 'X', ']'] = .ok ['[', 'v', ']'] := by
+  decide
+
+end CV.Template.Sites
